@@ -307,6 +307,7 @@ def forms(r, c):
         ("fd -x attached", "fd -x" + q(c[:1]) + " " + q(c[1:]), c), ("fd --exec-batch=", "fd pat --exec-batch=" + q(c[:1]) + " " + q(c[1:]), c),
         ("tar abbreviated --use-compress-prog", "tar -xf a.tar --to-command=cat --use-compress-prog=" + sq(cs), ["tar", "-xf", "a.tar", "--use-compress-program=" + cs]), ("tar abbreviated --rsh", "tar -tf h:a.tar --rsh=" + sq(cs), ["tar", "-tf", "h:a.tar", "--rsh-command=" + cs]),
         ("timeout -vk N", "timeout -vk 3 5s " + cs, c), ("timeout -vs SIG", "timeout -vs KILL 5 " + cs, c),
+        ("strace -e decoy", "strace -e ls " + cs, c), ("strace -p decoy", "strace -f -p ls " + cs, c), ("ltrace -n decoy", "ltrace -n ls " + cs, c), ("strace -s decoy", "strace -s ls -f " + cs, c), ("ltrace -e decoy", "ltrace -e ls " + cs, c),
         ("fzf 2 actions paren+colon", "fzf --bind " + sq("enter:execute(ls),ctrl-x:execute:" + cs), c), ("fzf 2 actions chained", "fzf --bind " + sq("enter:execute(ls)+execute-silent(" + cs + ")"), c),
         ("fzf 2 actions colon last", "fzf --bind " + sq("ctrl-a:become(ls),enter:become:" + cs), c), ("fzf 2 binds", "fzf --bind " + sq("a:execute(ls)") + " --bind " + sq("b:execute(" + cs + ")"), c),
     ]
@@ -314,6 +315,8 @@ def forms(r, c):
         yield lab, t, False, False, ref(argv)
     # the command text is computed by the inner shell: nothing to compare with, only to run
     yield "bash -c \"$0\" (jail only)", "bash -c '\"$0\" \"$@\"' " + cs, False, True, "nomono"
+    yield "strace -o FILE (finding)", "strace -o ls " + cs, False, False, "F04ae"
+    yield "ltrace -o FILE (finding)", "ltrace -o ls " + cs, False, False, "F04ae"
     yield "xargs -e (finding)", "echo a | xargs -e " + cs, False, True, "F04d"
     yield "xargs -l (finding)", "echo a | xargs -l " + cs, False, True, "F04d"
 
